@@ -13,10 +13,10 @@ from vlib import core, rel
 from vlib.core import strlit, listlit, natlit, boollit
 from translate import c01_facts
 
-HEADER = """From SF Require Import Model.ChainCheck.
+HEADER = """From SF Require Import Model.ChainCheckX.
 From Gen Require Import C01Facts.
 Open Scope string_scope.
-Definition check := ChainCheck.check gen_cfg.
+Definition check := check_x gen_cfg (deco_of decorator_table).
 """
 
 TABLES = {
@@ -99,9 +99,61 @@ class Gen:
             tgt = r.choice(names + ["c", "d"])
             e = self.bool_e(cols, 1) if r.random() < 0.2 else self.int_e(cols)
             return ("withColumn", tgt, e)
-        if k < 0.93:
+        if k < 0.90:
             return ("rename", r.choice(names), r.choice(["c", "d", "e"] + names))
-        return ("drop", r.sample(names, 1) + (["zz"] if r.random() < 0.2 else []))
+        if k < 0.94:
+            return ("drop", r.sample(names, 1) + (["zz"] if r.random() < 0.2 else []))
+        return self.wide_step(cols)
+
+    def wide_step(self, cols):
+        """the composite / wider operations of the property's list"""
+        r = self.r
+        names = list(cols)
+        ints = [c for c, t in cols.items() if t == "int"]
+        strs = [c for c, t in cols.items() if t == "str"]
+        k = r.random()
+        if k < 0.14:
+            new = r.sample(["a", "b", "c", "d", "e", "s", "x"], len(names))
+            return ("toDF", new)
+        if k < 0.32 and (ints or strs):
+            kv = {}
+            for c in r.sample(ints, r.randint(0, len(ints))):
+                kv[c] = r.choice([0, 7, -1])
+            if strs and (not kv or r.random() < 0.3):
+                kv[r.choice(strs)] = r.choice(["x", "", "q"])
+            return ("fillna", kv)
+        if k < 0.48 and ints:
+            tgt = r.sample(ints, r.randint(1, len(ints)))
+            pairs = [(r.choice([1, 2, 0, -1]), r.choice([5, 1, 0]))]
+            if r.random() < 0.4:
+                pairs.append((r.choice([3, 4, 5]), r.choice([9, 1])))
+            if len({o for o, _ in pairs}) != len(pairs):
+                pairs = pairs[:1]
+            return ("replace", tgt, pairs)
+        if k < 0.64:
+            sub = r.sample(names, r.randint(1, len(names))) if r.random() < 0.6 else []
+            n = len(sub) or len(names)
+            if r.random() < 0.4:
+                return ("dropna", "any", r.randint(1, n), sub)
+            return ("dropna", r.choice(["any", "all"]), None, sub)
+        if k < 0.74:
+            return ("dropDup", r.sample(names, r.randint(1, len(names))))
+        if k < 0.86 and len(ints) >= 1:
+            vals = r.sample(ints, r.randint(1, len(ints)))
+            ids = [c for c in names if c not in vals and r.random() < 0.7]
+            if "var" in ids or "val" in ids:
+                ids = [c for c in ids if c not in ("var", "val")]
+            return ("unpivot", ids, vals, "var", "val")
+        keys = r.sample(names, r.randint(0, min(2, len(names))))
+        rest = [c for c in ints if c not in keys]
+        aggs = []
+        for i in range(r.randint(1, 3)):
+            fn = r.choice(["sum", "count", "min", "max", "count_star", "avg"])
+            if fn == "count_star" or not rest:
+                aggs.append(("count_star", "*", f"g{i}"))
+            else:
+                aggs.append((fn, r.choice(rest), f"g{i}"))
+        return ("agg", keys, aggs)
 
     def order_step(self, cols, total):
         r = self.r
@@ -160,6 +212,47 @@ def cols_after(step, cols):
     if k == "drop":
         new = {c: t for c, t in cols.items() if c not in step[1]}
         return new or None
+    if k == "toDF":
+        if len(step[1]) != len(cols) or len(set(step[1])) != len(step[1]):
+            return None
+        return {n: t for n, t in zip(step[1], cols.values())}
+    if k == "fillna":
+        if not step[1] or any(c not in cols for c in step[1]):
+            return None
+        for c, v in step[1].items():
+            if (cols[c] == "int") != isinstance(v, int):
+                return None
+        return dict(cols)
+    if k == "replace":
+        if any(cols.get(c) != "int" for c in step[1]):
+            return None
+        return dict(cols)
+    if k == "dropna":
+        if any(c not in cols for c in step[3]):
+            return None
+        return dict(cols)
+    if k == "dropDup":
+        return dict(cols) if all(c in cols for c in step[1]) else None
+    if k == "unpivot":
+        _, ids, vals, var, vl = step
+        if any(c not in cols for c in ids + vals) or any(cols[c] != "int" for c in vals) or not vals:
+            return None
+        if var in ids or vl in ids or var == vl:
+            return None
+        new = {c: cols[c] for c in ids}
+        new[var] = "str"
+        new[vl] = "int"
+        return new
+    if k == "agg":
+        _, keys, aggs = step
+        if any(c not in cols for c in keys):
+            return None
+        new = {c: cols[c] for c in keys}
+        for fn, c, out in aggs:
+            if out in new or (c != "*" and cols.get(c) != "int"):
+                return None
+            new[out] = "rat" if fn == "avg" else "int"
+        return new
     return dict(cols)
 
 
@@ -167,7 +260,34 @@ def nulls_first(desc, nf):
     return (not desc) if nf is None else nf
 
 
+AGG_COQ = {"sum": "ASum", "count": "ACount", "min": "AMin", "max": "AMax", "count_star": "ACountStar", "avg": "AAvg"}
+
+
 def step_coq(step) -> str:
+    k = step[0]
+    sl = lambda xs: listlit([strlit(x) for x in xs])
+    if k == "toDF":
+        return f"(XToDF {sl(step[1])})"
+    if k == "fillna":
+        return "(XFillna " + listlit([f"({strlit(c)}, {rel.val_coq(v)})" for c, v in step[1].items()]) + ")"
+    if k == "replace":
+        # the scalar form repeats its (old, new) pair once per target column (dataframe.py: [to_replace] * len(columns))
+        pairs = step[2] * len(step[1]) if len(step[2]) == 1 else step[2]
+        return f"(XReplace {sl(step[1])} " + listlit([f"({rel.val_coq(o)}, {rel.val_coq(n)})" for o, n in pairs]) + ")"
+    if k == "dropna":
+        th = "None" if step[2] is None else f"(Some {core.zlit(step[2])})"
+        return f"(XDropna {boollit(step[1] == 'any')} {th} {sl(step[3])})"
+    if k == "dropDup":
+        return f"(XDropDup {sl(step[1])})"
+    if k == "unpivot":
+        return f"(XUnpivot {sl(step[1])} {sl(step[2])} {strlit(step[3])} {strlit(step[4])})"
+    if k == "agg":
+        return f"(XAgg {sl(step[1])} " + listlit(
+            [f"(({AGG_COQ[fn]}, {strlit(c)}), {strlit(out)})" for fn, c, out in step[2]]) + ")"
+    return "(XCore " + core_step_coq(step) + ")"
+
+
+def core_step_coq(step) -> str:
     k = step[0]
     if k == "select":
         return "(UOp (OSelect " + listlit([f"({rel.e_coq(e)}, {strlit(n)})" for e, n in step[1]]) + "))"
@@ -201,6 +321,8 @@ def step_str(step) -> str:
             for e, d, nf in step[1]) + ")"
     if k == "withColumn":
         return f"withColumn({step[1]}, {rel.e_str(step[2])})"
+    if k == "agg":
+        return f"groupBy({step[1]}).agg({', '.join(f'{fn}({c}) as {o}' for fn, c, o in step[2])})"
     return f"{k}({', '.join(map(str, step[1:]))})"
 
 
@@ -238,6 +360,40 @@ def apply_step(df, step, F):
         return df.withColumnRenamed(step[1], step[2])
     if k == "drop":
         return df.drop(*step[1])
+    if k == "toDF":
+        return df.toDF(*step[1])
+    if k == "fillna":
+        kv = step[1]
+        vals = set(kv.values())
+        if len(vals) == 1 and hash(repr(kv)) % 3 == 0:
+            return df.fillna(next(iter(vals)), subset=list(kv))
+        if hash(repr(kv)) % 3 == 1:
+            return df.na.fill(dict(kv))
+        return df.fillna(dict(kv))
+    if k == "replace":
+        tgt, pairs = step[1], step[2]
+        if len(pairs) == 1:
+            return df.replace(pairs[0][0], pairs[0][1], subset=tgt)
+        return df.replace({o: n for o, n in pairs}, subset=tgt)
+    if k == "dropna":
+        _, how, thresh, sub = step
+        kw = {}
+        if sub:
+            kw["subset"] = sub
+        if thresh is not None:
+            kw["thresh"] = thresh
+        return df.dropna(how=how, **kw)
+    if k == "dropDup":
+        return df.dropDuplicates(step[1])
+    if k == "unpivot":
+        return df.unpivot(step[1], step[2], step[3], step[4])
+    if k == "agg":
+        _, keys, aggs = step
+        exprs = []
+        for fn, c, out in aggs:
+            e = F.count("*") if fn == "count_star" else getattr(F, fn)(c)
+            exprs.append(e.alias(out))
+        return df.groupBy(*keys).agg(*exprs)
     raise ValueError(step)
 
 
@@ -251,8 +407,11 @@ def plan_mode(steps):
         if k == "orderBy":
             keycols = [e[1] for e, _, _ in st[1] if e[0] == "col"]
             total = set(keycols) >= set(cols)
-        elif k == "distinct":
+        elif k in ("distinct", "unpivot", "agg"):
             total = False
+        elif k == "dropDup":
+            out.append(st)
+            return ("dedup", st[1]), out
         elif k == "limit" and not total:
             out.append(st)
             return ("sub", st[1]), out
@@ -327,6 +486,14 @@ def make_programs(ctx):
         [("limit", 3), ("limit", 5), ("limit", 1)],
         [("orderBy", [(("col", "a"), False, None), (("col", "b"), False, None), (("col", "s"), False, None)]), ("limit", 4), ("where", ("bin", "Gt", ("col", "b"), ("lit", 1)))],
         [("distinct",), ("select", [(("col", "a"), "a")]), ("distinct",)],
+        # DuckDB's OR-filter emits the rows of each disjunct in turn: order of an ordered CTE is lost (known finding)
+        [("orderBy", [(("col", "s"), False, False), (("col", "a"), False, None), (("col", "b"), False, None)]),
+         ("select", [(("col", "a"), "a"), (("bin", "Mul", ("lit", -3), ("neg", ("col", "a"))), "c"), (("col", "s"), "s")]),
+         ("where", ("bin", "Or", ("isnull", ("col", "a")),
+                    ("bin", "Eq", ("bin", "Mul", ("col", "c"), ("col", "c")), ("bin", "Add", ("col", "c"), ("col", "c")))))],
+        [("fillna", {"a": 0}), ("where", ("bin", "Eq", ("col", "a"), ("lit", 0)))],
+        [("replace", ["a"], [(1, 7)]), ("agg", ["a"], [("count_star", "*", "n")])],
+        [("orderBy", [(("col", "a"), False, None), (("col", "b"), False, None), (("col", "s"), False, None)]), ("toDF", ["b", "a", "s"])],
     ]
     return corpus + progs, n_exh
 
@@ -335,10 +502,18 @@ def signature(steps, flags):
     """shape predicate of a deviation (impl vs spec), used to match known findings"""
     kinds = [s[0] for s in steps]
     for i in range(len(kinds) - 1):
+        if kinds[i + 1] == "toDF" and "orderBy" in kinds[: i + 1]:
+            return "C01/toDF-after-orderBy-retargets-order"
+    for i in range(len(kinds) - 1):
         if kinds[i] == "orderBy" and kinds[i + 1] == "orderBy":
             return "C01/orderBy-after-orderBy"
     if flags.get("raised"):
         return "C01/raises:" + flags.get("exc", "?")
+    if flags.get("mode") == "seq" and flags.get("same_bag") and "orderBy" in kinds:
+        after = kinds[len(kinds) - 1 - kinds[::-1].index("orderBy") + 1:]
+        if "where" in after or "dropna" in after:
+            return "C01/engine-reorders-rows-in-filter-above-ordered-cte"
+        return "C01/order-lost:" + ">".join(after[-3:])
     return "C01/rows-differ:" + ">".join(kinds[-3:])
 
 
@@ -401,8 +576,9 @@ def run(ctx: core.Ctx):
             except Exception as ex:
                 exc = f"{type(ex).__name__}"
                 n_raise += 1
-            cm = {"seq": "CmpSeq", "bag": "CmpBag", "sub": f"(CmpSubOf {natlit(lim or 0)})"}[mode]
-            items.append(f"(mkCase {rel.frame_coq(COLS0, rows)} {listlit([step_coq(s) for s in steps])} {cm} {exported} {impl})")
+            cm = {"seq": "XSeq", "bag": "XBag", "sub": f"(XSubOf {natlit(lim if isinstance(lim, int) else 0)})",
+                  "dedup": "(XDedup " + listlit([strlit(c) for c in (lim if isinstance(lim, list) else [])]) + ")"}[mode]
+            items.append(f"(mkXCase {rel.frame_coq(COLS0, rows)} {listlit([step_coq(s) for s in steps])} {cm} {exported} {impl})")
             metas.append({"steps": steps, "table": tname, "mode": mode, "exc": exc, "exported": exported != "None"})
             hist_len[len(steps)] = hist_len.get(len(steps), 0) + 1
             hist_mode[mode] = hist_mode.get(mode, 0) + 1
@@ -415,22 +591,24 @@ def run(ctx: core.Ctx):
     for it, m, r in zip(items, metas, res):
         if r is None or len(r) != 6:
             continue
-        t2, im, isp, ms, dom, raised = (ch == "1" for ch in r)
-        n_t2 += t2
+        same_bag = r[5] == "1"
+        r = r[:5] + r[5]
+        t2 = {"1": True, "0": False, "2": None}[r[0]]
+        im = {"1": True, "0": False, "2": None}[r[1]]
+        isp, dom, raised = (ch == "1" for ch in r[2:5])
+        n_t2 += bool(t2)
         n_dom += dom
         desc = {"program": [step_str(s) for s in m["steps"]], "table": m["table"], "rows": TABLES[m["table"]],
-                "mode": m["mode"], "verdict(t2,impl=model,impl=spec,model=spec,in_domain,raised)": r,
+                "mode": m["mode"], "verdict(t2,impl=model,impl=spec,in_domain,raised,same_bag; 2=n/a)": r,
                 "exception": m["exc"], "steps_json": m["steps"], "coq_case": it}
         if raised or not isp:
-            ctx.deviation(signature(m["steps"], {"raised": raised, "exc": m["exc"]}),
+            ctx.deviation(signature(m["steps"], {"raised": raised, "exc": m["exc"], "same_bag": same_bag, "mode": m["mode"]}),
                           "collect() differs from the sequential PySpark meaning" if not raised else f"raises {m['exc']}",
                           desc)
-        elif not im:
+        elif im is False:
             model_fail.append(desc)
-        elif not t2 and m["exported"]:
+        elif t2 is False:
             t2_fail.append(desc)
-        if proved and dom and not ms and not any(b["name"] == "theorem-vs-evaluation" for b in ctx.brokens):
-            ctx.broken("theorem-vs-evaluation", "in-domain case where model and spec evaluate differently: " + it[:400])
         if TABLES[m["table"]] and len(m["steps"]) >= 2:
             n_nontriv += 1
         if len(ctx.samples) < 4 and len(m["steps"]) >= 3 and m["table"] != "empty":
@@ -441,9 +619,9 @@ def run(ctx: core.Ctx):
     if t2_fail:
         first = t2_fail[0]
         first["nf(exported) vs nf(model)"] = ctx.coq_eval(
-            HEADER, f"let k := {first['coq_case']} in let ics := cols (c_input k) in "
-                    "let d := compile gen_cfg (desugar_all ics (c_ops k)) (init_df ics) in "
-                    "(option_map (nf ics) (c_exported k), nf ics (done d ++ [cur d]))")
+            HEADER, f"let k := {first['coq_case']} in let ics := cols (xc_input k) in "
+                    "(option_map (nf ics) (xc_exported k), "
+                    "option_map (fun d => nf ics (done d ++ [cur d])) (run_x gen_cfg (deco_of decorator_table) (init_df ics) (xc_ops k)))")
         ctx.broken("T2:tree-vs-model", f"{len(t2_fail)} programs whose exported SQL tree differs from the model's normal form; "
                    f"first: {first['program']}", data=t2_fail[:5])
     n_exportable = sum(1 for m in metas if m["exported"])
@@ -480,5 +658,5 @@ def replay(ctx: core.Ctx, rp: dict) -> int:
     print("program:", [step_str(s) for s in steps])
     print("sql:", df.sql(optimize=False))
     print("collect():", df.collect())
-    print("verdict recorded:", r.get("verdict(t2,impl=model,impl=spec,model=spec,in_domain,raised)"))
+    print("verdict recorded:", r.get("verdict(t2,impl=model,impl=spec,in_domain,raised,same_bag; 2=n/a)"))
     return 0
